@@ -121,6 +121,18 @@ def attempts(w, is_group: bool, CL) -> Dict[str, List[Any]]:
     return {"mutate": mut, "read": read, "upward": up, "harmless": harmless}
 
 
+def parse_cases(out: str):
+    """The chains printed by TLC (one <<"CASE", "<json>">> line per state)."""
+    import re
+    res = []
+    for m in re.finditer(r'^<<"CASE", (".*")>>$', out, re.M):
+        try:
+            res.append(json.loads(json.loads(m.group(1))))
+        except ValueError:
+            continue
+    return res
+
+
 def run(tier: str) -> int:
     rep = Report("C15", tier)
     quick = tier == "quick"
@@ -140,22 +152,55 @@ def run(tier: str) -> int:
         from . import contlib as CL
         env = CL.Env()
         env.upgrade()
-        out = wd / "cases.json"
-        maxchain = 2 if quick else 3
-        cfg = cfg_text("Spec", constants={"MaxChain": maxchain, "Stride": 1},
-                       invariants=["FlagsOnlyGrow", "LocalNeverAbove", "LocalRootStable"], postcondition="Export")
-        cfg = cfg.replace("CONSTANTS\n", f"CONSTANTS\n  Starts <- {'AllStarts' if quick else 'AllStarts'}\n")
-        r = run_tlc("MC_ContainerAcl", cfg, wd, env={"OUT_FILE": str(out)}, timeout=3000)
-        rep.add_tlc("acl_navigation_model", r, max_chain=maxchain, start_nodes=4, flag_combinations=8, exhaustive=True)
-        if r.violated:
-            rep.violation(f"TLC: {r.violated} violated in the ACL model", {"tlc_out": r.out[-4000:]})
-        elif not r.ok or not out.exists():
-            rep.machinery(f"TLC failed on ContainerAcl: {r.error or r.out[-600:]}")
+        # configurations: (name, max chain length, start set, lookups, print chains with at least .. steps or None)
+        #   all starts with chains up to 2 (thorough: 3); few starts with chains up to 3 (thorough: 4), because a
+        #   remembered parent is only handed out after lookup -> restrict -> parent; the invariants alone much deeper
+        configs = [("acl_navigation_model", 2 if quick else 3, "AllStarts", "AllHows", 0),
+                   ("acl_navigation_model_longer_chains", 3 if quick else 4, "FewStarts", "TwoHows", 3 if quick else 4),
+                   ("acl_navigation_model_invariants_deep", 5 if quick else 7, "AllStarts", "AllHows", None)]
+        cases = []
+        for name, maxchain, starts, hows, emit_from in configs:
+            cfg = cfg_text("Spec", constants={"MaxChain": maxchain, "EmitFrom": emit_from or 0, "Mutant": "none"},
+                           invariants=["FlagsOnlyGrow", "LocalNeverAbove", "LocalRootStable"] + ([] if emit_from is None else ["Emit"]))
+            cfg = cfg.replace("CONSTANTS\n", f"CONSTANTS\n  Starts <- {starts}\n  Hows <- {hows}\n")
+            r = run_tlc("MC_ContainerAcl", cfg, wd, timeout=3300, tag="_" + name)
+            rep.add_tlc(name, r, max_chain=maxchain, starts=starts, lookups=hows, flag_combinations=8, exhaustive=True)
+            if r.violated:
+                rep.violation(f"TLC: {r.violated} violated in the ACL model ({name})", {"tlc_out": r.out[-4000:]})
+                return rep.finish()
+            elif not r.ok:
+                rep.machinery(f"TLC failed on ContainerAcl ({name}): {r.error or r.out[-600:]}")
+                return rep.finish()
+            if emit_from is not None:
+                got = parse_cases(r.out)
+                if len(got) < 100:
+                    rep.machinery(f"no chains printed by TLC ({name}): {len(got)}")
+                    return rep.finish()
+                cases.append(got)
+        # self-test of the invariants: handing out the remembered parent as it was (the pinned behaviour, defect 18)
+        # must be rejected by TLC
+        cfg = cfg_text("Spec", constants={"MaxChain": 3, "EmitFrom": 0, "Mutant": "parent_as_remembered"},
+                       invariants=["FlagsOnlyGrow"])
+        cfg = cfg.replace("CONSTANTS\n", "CONSTANTS\n  Starts <- FewStarts\n  Hows <- OneHow\n")
+        r = run_tlc("MC_ContainerAcl", cfg, wd, timeout=3000, tag="_mutant")
+        rep.parts["mutant_parent_as_remembered"] = {"killed_by": r.violated or ""}
+        if r.violated != "FlagsOnlyGrow":
+            rep.machinery(f"the mutant parent_as_remembered was not rejected by FlagsOnlyGrow: {r.violated or r.error or r.out[-300:]}")
             return rep.finish()
-        cases = json.loads(out.read_text())
-        if quick and len(cases) > 1400:
-            rng.shuffle(cases)
-            cases = cases[:1400]
+
+        def restrict_then_parent(c_):
+            ops = [s_[0] for s_ in c_["steps"]]
+            return "parent" in ops and "restrict" in ops[: len(ops) - ops[::-1].index("parent") - 1]
+        short, longer = cases
+        must = [c_ for c_ in longer if restrict_then_parent(c_)]
+        rest = [c_ for c_ in longer if not restrict_then_parent(c_)]
+        if quick:
+            rng.shuffle(short)
+            rng.shuffle(rest)
+            rng.shuffle(must)
+            short, rest, must = short[:900], rest[:200], must[:300]
+        cases = short + must + rest
+        rep.parts["replay_selection"] = {"short_chains": len(short), "longer_restrict_then_parent": len(must), "longer_other": len(rest)}
         stats = {"chains": 0, "attempts_refused_checked": 0, "attempts_allowed_checked": 0, "parent_refusals": 0}
         for kind in ("h5", "ih5"):
             raw, mc = build_fixture(kind, wd / f"fx_{kind}")
